@@ -11,6 +11,7 @@
 -/
 import FastPasta.Spec.AlpideEnc
 import FastPasta.Model.Cdp
+import FastPasta.Proofs.AlpideSrcTie
 namespace FastPasta
 namespace C13
 
